@@ -8,13 +8,14 @@ MUTATING = ("write", "pwrite", "writev", "pwritev", "ftruncate", "fsync", "fdata
             "posix_fallocate", "sync_file_range")
 
 
-def workload(seed, mode="plain", nops=10, maint=True, jcomp="lz4", manual=False, persists=False, arm_early=False):
+def workload(seed, mode="plain", nops=10, maint=True, jcomp="lz4", manual=False, persists=False, arm_early=False, reopen_first=False):
     """Deterministic workload: setup, `arm`, then operations each followed by `dump` (the oracle positions).
     Returns the program text; line numbers of the `dump`s give the prefix states."""
     r = random.Random(seed)
     mp = " manualp=1" if manual else ""
     L = ["open %s jcomp=%s%s" % (mode, jcomp, " manual=1" if manual else "")] + (["arm"] if arm_early else []) + \
-        ["ks h0 alpha" + mp, "ks h1 beta" + mp, "put h0 61 00", "dump"] + ([] if arm_early else ["arm"])
+        ["ks h0 alpha" + mp, "ks h1 beta" + mp, "put h0 61 00"] + \
+        (["reopen", "ks h0 alpha", "ks h1 beta"] if reopen_first and not arm_early else []) + ["dump"] + ([] if arm_early else ["arm"])
     nks = 2
     tx_open = False
     for _ in range(nops):
